@@ -1,1 +1,237 @@
-pub fn placeholder(){}
+//! Schedule controller behind the guarded hook `similari::verif_hooks` (recorder, delay plans, gate scripts).
+use crate::rng::splitmix;
+use std::collections::HashMap;
+use std::sync::atomic::{AtomicU64, Ordering};
+use std::sync::{Arc, Condvar, Mutex};
+use std::time::{Duration, Instant};
+
+#[derive(Clone, Copy, Debug, PartialEq, Eq, Hash)]
+pub enum Token {
+    /// the next Distances/Merge/Lookup/FindBaked command of store worker k (held from begin to end)
+    Worker(u64),
+    /// the caller's step between "commands sent" and what follows in owned_track_distances
+    Caller,
+}
+
+#[derive(Clone, Debug)]
+pub enum Mode {
+    Off,
+    Record,
+    /// seeded random delays at every hooked site; `intensity` in 0..=100 is the percentage of hits that are delayed
+    Delay { seed: u64, intensity: u64, max_sleep_us: u64 },
+    /// scripted total order of tokens
+    Gate { script: Vec<Token> },
+    /// stall every hit of `site` (optionally only with arg) for `us` microseconds, otherwise like Delay
+    Stall { site: &'static str, us: u64, seed: u64 },
+}
+
+#[derive(Default)]
+struct State {
+    mode: Option<Mode>,
+    script_pos: usize,
+    holder: Option<Token>,
+    stalled: bool,
+    hits: HashMap<(&'static str, u64), u64>,
+    events: Vec<(&'static str, u64)>,
+    last_site: HashMap<std::thread::ThreadId, (&'static str, u64)>,
+}
+
+pub struct Controller {
+    st: Mutex<State>,
+    cv: Condvar,
+    pub ticket: AtomicU64,
+    pub gate_timeouts: AtomicU64,
+}
+
+fn worker_of(site: &str, arg: u64) -> Option<(bool, u64, u64)> {
+    // (is_begin, shard, kind)
+    match site {
+        "store.cmd.begin" => Some((true, arg >> 8, arg & 0xff)),
+        "store.cmd.end" => Some((false, arg >> 8, arg & 0xff)),
+        _ => None,
+    }
+}
+
+impl Controller {
+    /// creates the controller and installs it as the process-global hook callback
+    pub fn install() -> Arc<Controller> {
+        let c = Arc::new(Controller { st: Mutex::new(State::default()), cv: Condvar::new(), ticket: AtomicU64::new(0), gate_timeouts: AtomicU64::new(0) });
+        let c2 = c.clone();
+        similari::verif_hooks::set_callback(Some(Arc::new(move |site, arg| c2.on(site, arg))));
+        c
+    }
+
+    pub fn set_mode(&self, m: Mode) {
+        let mut s = self.st.lock().unwrap();
+        s.mode = Some(m);
+        s.script_pos = 0;
+        s.holder = None;
+        s.stalled = false;
+        s.hits.clear();
+        s.events.clear();
+        self.cv.notify_all();
+    }
+
+    /// returns (recorded events, whether a gate script stalled and was abandoned)
+    pub fn finish(&self) -> (Vec<(&'static str, u64)>, bool) {
+        let mut s = self.st.lock().unwrap();
+        s.mode = Some(Mode::Off);
+        let ev = std::mem::take(&mut s.events);
+        let stalled = s.stalled;
+        self.cv.notify_all();
+        (ev, stalled)
+    }
+
+    pub fn script_consumed(&self) -> usize {
+        self.st.lock().unwrap().script_pos
+    }
+
+    pub fn last_sites(&self) -> Vec<String> {
+        self.st.lock().unwrap().last_site.iter().map(|(t, (s, a))| format!("{:?}@{}({})", t, s, a)).collect()
+    }
+
+    fn on(&self, site: &'static str, arg: u64) {
+        self.ticket.fetch_add(1, Ordering::SeqCst);
+        let mut s = self.st.lock().unwrap();
+        s.last_site.insert(std::thread::current().id(), (site, arg));
+        let mode = match &s.mode {
+            None | Some(Mode::Off) => return,
+            Some(m) => m.clone(),
+        };
+        // the Drop command of a worker is never interesting
+        if let Some((_, _, 0)) = worker_of(site, arg) {
+            return;
+        }
+        s.events.push((site, arg));
+        let n = {
+            let e = s.hits.entry((site, arg)).or_insert(0);
+            *e += 1;
+            *e
+        };
+        match mode {
+            Mode::Off | Mode::Record => {}
+            Mode::Delay { seed, intensity, max_sleep_us } => {
+                drop(s);
+                delay(seed, site, arg, n, intensity, max_sleep_us);
+            }
+            Mode::Stall { site: ss, us, seed } => {
+                drop(s);
+                if ss == site {
+                    std::thread::sleep(Duration::from_micros(us));
+                } else {
+                    delay(seed, site, arg, n, 30, 300);
+                }
+            }
+            Mode::Gate { script } => {
+                let my = match worker_of(site, arg) {
+                    Some((true, shard, _)) => Some((Token::Worker(shard), true)),
+                    Some((false, shard, _)) => Some((Token::Worker(shard), false)),
+                    None if site == "store.owned.sent" => Some((Token::Caller, true)),
+                    None => None,
+                };
+                let (tok, begin) = match my {
+                    Some(x) => x,
+                    None => return,
+                };
+                if !begin {
+                    // end of a worker command: release the token it holds
+                    if s.holder == Some(tok) {
+                        s.holder = None;
+                        self.cv.notify_all();
+                    }
+                    return;
+                }
+                let deadline = Instant::now() + Duration::from_secs(10);
+                loop {
+                    if s.stalled || !matches!(s.mode, Some(Mode::Gate { .. })) {
+                        return;
+                    }
+                    if s.script_pos >= script.len() {
+                        return; // script exhausted: free running
+                    }
+                    if s.holder.is_none() && script[s.script_pos] == tok {
+                        s.script_pos += 1;
+                        if tok != Token::Caller {
+                            s.holder = Some(tok);
+                        }
+                        self.cv.notify_all();
+                        return;
+                    }
+                    let now = Instant::now();
+                    if now >= deadline {
+                        s.stalled = true;
+                        self.gate_timeouts.fetch_add(1, Ordering::SeqCst);
+                        self.cv.notify_all();
+                        return;
+                    }
+                    let (g, _) = self.cv.wait_timeout(s, deadline - now).unwrap();
+                    s = g;
+                }
+            }
+        }
+    }
+}
+
+fn delay(seed: u64, site: &str, arg: u64, n: u64, intensity: u64, max_sleep_us: u64) {
+    let mut x = seed ^ crate::rng::fnv(site.as_bytes()) ^ arg.wrapping_mul(0x9E3779B97F4A7C15) ^ n.wrapping_mul(0xD1B54A32D192ED03);
+    let r = splitmix(&mut x);
+    if r % 100 >= intensity {
+        return;
+    }
+    match (r >> 8) % 4 {
+        0 => std::thread::yield_now(),
+        1 => {
+            let spins = (r >> 16) % 20_000;
+            for _ in 0..spins {
+                std::hint::spin_loop();
+            }
+        }
+        _ => {
+            let us = 20 + (r >> 16) % max_sleep_us.max(1);
+            std::thread::sleep(Duration::from_micros(us));
+        }
+    }
+}
+
+/// all distinct interleavings of per-worker command sequences: `counts[k]` commands of worker k
+pub fn worker_interleavings(counts: &[usize]) -> Vec<Vec<Token>> {
+    fn rec(left: &mut Vec<usize>, cur: &mut Vec<Token>, out: &mut Vec<Vec<Token>>) {
+        if left.iter().all(|c| *c == 0) {
+            out.push(cur.clone());
+            return;
+        }
+        for k in 0..left.len() {
+            if left[k] > 0 {
+                left[k] -= 1;
+                cur.push(Token::Worker(k as u64));
+                rec(left, cur, out);
+                cur.pop();
+                left[k] += 1;
+            }
+        }
+    }
+    let mut out = vec![];
+    rec(&mut counts.to_vec(), &mut vec![], &mut out);
+    out
+}
+
+/// insert the caller token at every position of a worker interleaving
+pub fn with_caller_positions(w: &[Token]) -> Vec<Vec<Token>> {
+    (0..=w.len())
+        .map(|p| {
+            let mut v = w.to_vec();
+            v.insert(p, Token::Caller);
+            v
+        })
+        .collect()
+}
+
+pub fn order_signature(events: &[(&'static str, u64)], site: &str) -> u64 {
+    let mut h = crate::rng::Hasher::new();
+    for (s, a) in events {
+        if *s == site {
+            h.u64(*a);
+        }
+    }
+    h.get()
+}
